@@ -14,6 +14,7 @@ import (
 	"github.com/mimecast/dtail/internal/lcontext"
 	"github.com/mimecast/dtail/internal/omode"
 	"github.com/mimecast/dtail/internal/regex"
+	"github.com/mimecast/dtail/internal/verifhook"
 )
 
 type readCommand struct {
@@ -142,16 +143,19 @@ func (r *readCommand) read(ctx context.Context, ltx lcontext.LContext,
 	defer func() {
 		select {
 		case <-limiter:
+			verifhook.At("limiter.released", r.server, path)
 		default:
 		}
 	}()
 
+	verifhook.At("limiter.enter", r.server, path)
 	select {
 	case limiter <- struct{}{}:
 	case <-ctx.Done():
 		return
 	default:
 		dlog.Server.Info("Server limit hit, queueing file", len(limiter), path)
+		verifhook.At("limiter.queued", r.server, path)
 		select {
 		case limiter <- struct{}{}:
 			dlog.Server.Info("Server limit OK now, processing file", len(limiter), path)
@@ -159,6 +163,7 @@ func (r *readCommand) read(ctx context.Context, ltx lcontext.LContext,
 			return
 		}
 	}
+	verifhook.At("limiter.acquired", r.server, path)
 
 	lines := r.server.lines
 	aggregate := r.server.aggregate
